@@ -538,9 +538,8 @@ func (r *resolver) resolveRef(rs *Resolved, s *Schema, ref string) (_ *Schema, d
 		// http://foo.com/bar.json/baz, where the document is in bar.json and
 		// the reference points to a subschema within it.
 		// TODO: support that case.
-		if lrs := r.loaded[fraglessRefURI.String()]; lrs != nil {
-			referencedSchema = lrs.root
-		} else {
+		lrs := r.loaded[fraglessRefURI.String()]
+		if lrs == nil {
 			// Try to load the schema.
 			ls, err := r.opts.Loader(fraglessRefURI)
 			if err != nil {
@@ -550,18 +549,20 @@ func (r *resolver) resolveRef(rs *Resolved, s *Schema, ref string) (_ *Schema, d
 			if ls.Schema == "" {
 				ls.Schema = s.Schema
 			}
-			lrs, err := r.resolve(ls, fraglessRefURI)
+			lrs, err = r.resolve(ls, fraglessRefURI)
 			if err != nil {
 				return nil, "", err
 			}
-			referencedSchema = lrs.root
-			assert(referencedSchema != nil, "nil referenced schema")
-			// Copy the resolvedInfos from lrs into rs, without overwriting
-			// (hence we can't use maps.Insert).
-			for s, i := range lrs.resolvedInfos {
-				if rs.resolvedInfos[s] == nil {
-					rs.resolvedInfos[s] = i
-				}
+		}
+		referencedSchema = lrs.root
+		assert(referencedSchema != nil, "nil referenced schema")
+		// Copy the resolvedInfos from lrs into rs, without overwriting
+		// (hence we can't use maps.Insert).
+		// Do this for a schema found in the cache too: it was loaded on behalf
+		// of another document, so rs may not have seen its infos yet.
+		for s, i := range lrs.resolvedInfos {
+			if rs.resolvedInfos[s] == nil {
+				rs.resolvedInfos[s] = i
 			}
 		}
 	}
